@@ -1,7 +1,7 @@
 (** Facts about the specification decoder (File/SpecDecoder.v) that are not about the layout:
     the scope of the external decompressor, and what the sorting declaration check decides. *)
-From Coq Require Import List NArith ZArith Bool Lia.
-From PQ Require Import Base.Bytes File.SpecDecoder.
+From Coq Require Import List NArith ZArith Bool Arith Lia.
+From PQ Require Import Base.Bytes Enc.Plain File.SpecDecoder.
 Import ListNotations.
 Open Scope N_scope.
 
@@ -51,3 +51,41 @@ Qed.
 Theorem decompress_ext_scope (e1 e2 : ext_fn) codec b :
   (codec = 0 \/ codec = 1)%Z -> decompress e1 codec b = decompress e2 codec b.
 Proof. intros [->| ->]; reflexivity. Qed.
+
+(** * Dictionary lookup by blocks = lookup by position *)
+
+Lemma nth_error_firstn_lt {A} n : forall (l : list A) r, (r < n)%nat -> nth_error (firstn n l) r = nth_error l r.
+Proof. induction n as [|n IH]; intros l r H; [lia|]. destruct l as [|x l]; [now destruct r|]. destruct r as [|r]; [reflexivity|]. cbn. apply IH. lia. Qed.
+
+Lemma nth_error_skipn_add {A} n : forall (l : list A) r, nth_error (skipn n l) r = nth_error l (n + r).
+Proof. induction n as [|n IH]; intros l r; [reflexivity|]. destruct l as [|x l]; [now destruct r|]. cbn. apply IH. Qed.
+
+Lemma nth_split_every {A} n f : forall (l : list A) q r, (r < n)%nat -> (q < f)%nat ->
+  match nth_error (Plain.split_every f n l) q with Some b => nth_error b r | None => None end = nth_error l (q * n + r).
+Proof.
+  induction f as [|f IH]; intros l q r Hr Hq; [lia|].
+  cbn [Plain.split_every]. destruct q as [|q].
+  - cbn. now apply nth_error_firstn_lt.
+  - cbn [nth_error]. rewrite IH by lia. rewrite nth_error_skipn_add. f_equal. lia.
+Qed.
+
+Lemma split_every_length {A} n f : forall l : list A, length (Plain.split_every f n l) = f.
+Proof. induction f as [|f IH]; intros l; [reflexivity|]. cbn. now rewrite IH. Qed.
+
+Theorem dict_lookup_eq {A} (dict : list A) i : dict_lookup (dict_blocks dict) i = nth_error dict (N.to_nat i).
+Proof.
+  unfold dict_lookup, dict_blocks.
+  assert (Hq : N.to_nat (i / 256) = (N.to_nat i / dict_block)%nat) by (rewrite N2Nat.inj_div; reflexivity).
+  assert (Hr : N.to_nat (i mod 256) = (N.to_nat i mod dict_block)%nat) by (rewrite N2Nat.inj_mod; reflexivity).
+  rewrite Hq, Hr. set (k := N.to_nat i). 
+  assert (Hb : (dict_block <> 0)%nat) by (unfold dict_block; lia).
+  pose proof (Nat.mod_upper_bound k dict_block Hb) as Hlt.
+  pose proof (Nat.div_mod k dict_block Hb) as Hdm.
+  destruct (Nat.lt_ge_cases (k / dict_block) (S (length dict / dict_block))) as [Hin|Hout].
+  - rewrite nth_split_every by assumption. f_equal. lia.
+  - pose proof (split_every_length dict_block (S (length dict / dict_block)) dict) as Hlen.
+    replace (nth_error (Plain.split_every _ _ _) (k / dict_block)) with (@None (list A)) by (symmetry; apply nth_error_None; lia).
+    symmetry. apply nth_error_None.
+    pose proof (Nat.div_mod (length dict) dict_block Hb). pose proof (Nat.mod_upper_bound (length dict) dict_block Hb).
+    nia.
+Qed.
